@@ -1969,9 +1969,8 @@ fn parse_week_day_number(s: &[u8]) -> Result<(WeekDay, &[u8])> {
         ));
     }
 
-    let num = s[0] - b'0';
-    if (1..=7).contains(&num) {
-        return Ok((WeekDay::from(num as usize), &s[1..]));
+    if (b'1'..=b'7').contains(&s[0]) {
+        return Ok((WeekDay::from((s[0] - b'0') as usize), &s[1..]));
     }
 
     Err(Error::ParseError(
